@@ -331,7 +331,8 @@ class C38(Property):
             shapes = [[rng.randint(2, 9), rng.randint(2, 9)] for _ in range(2)]
             out.append(dict(kind="cached", seed=rng.randint(0, 2**31),
                             history=[[rng.choice(shapes), rng.choice(["complex64", "complex128"]), rng.random() < 0.5] for _ in range(rng.randint(2, 6))]))
-        allcfg = [(f, e, p, l) for f in ("numpy", "fftw") for e in (("FFTW_ESTIMATE", "FFTW_MEASURE") if f == "fftw" else ("FFTW_MEASURE",))
+        efforts = ("FFTW_ESTIMATE", "FFTW_MEASURE", "FFTW_PATIENT") if ctx.thorough else ("FFTW_ESTIMATE", "FFTW_MEASURE")
+        allcfg = [(f, e, p, l) for f in ("numpy", "fftw") for e in (efforts if f == "fftw" else ("FFTW_MEASURE",))
                   for p in ("float32", "float64") for l in (False, True)]
         for _ in range(ctx.n(3, 40)):
             out.append(dict(kind="pipeline", seed=rng.randint(0, 2**31), gpts=rng.choice([16, 24, 32]), extent=rng.choice([6.0, 8.0]), depth=4.0,
